@@ -315,8 +315,25 @@ pub fn generate_actor( aaa: AAA, item_impl: &ItemImpl) -> ModelSdpl {
             };
             let msg_direct_call = quote!{ #msg.#direct ( & #direct_play_mut_token #actor ) #await_call; };
             let while_block_code = (*play_while_block)(msg_direct_call);
+            // an `async_channel` keeps its buffered messages ( and the reply senders inside them )
+            // alive for as long as any `Sender` exists, discard them when `play` ends for any reason
+            let drain_guard = {
+                let receiver_path = match aaa.lib {
+                    Lib::AsyncStd => Some(quote!{ async_std::channel::Receiver }),
+                    Lib::Smol     => Some(quote!{ async_channel::Receiver }),
+                    _ => None,
+                };
+                receiver_path.map(|path| quote!{
+                    struct InterDrain<T>( #path<T> );
+                    impl<T> ::std::ops::Drop for InterDrain<T> {
+                        fn drop(&mut self){ self.0.close(); while self.0.try_recv().is_ok() {} }
+                    }
+                    let _inter_drain = InterDrain( #receiver.clone() );
+                })
+            };
             quote! {
                 #async_decl fn #play #p_impl_generics( #pat_type_receiver #direct_play_mut_token #actor: #model_actor_type #debut_pat_type ) #p_where_clause {
+                    #drain_guard
                     while let #ok_or_some (#msg) = #receiver.recv() #await_call {
                         #while_block_code
                     }
